@@ -4,6 +4,7 @@ EXTENDS Limiters, Json, IOUtils, SequencesExt
 Recs == ndJsonDeserialize(IOEnv.JUDGE_IN)
 VARIABLES i, bad
 Failed(t) ==
+  IF t.kind = "raised" THEN {"C12_raised"} ELSE      \* the limiter raised on a pair of finite slopes
   {c \in {"C12_finite", "C12_zero_at_extrema", "C12_common_sign", "C12_twice_smaller", "C12_at_most_larger",
           "C12_symmetric", "C12_odd", "C12_elementwise", "C12_homogeneous", "C12_idempotent", "DRIFT_value"} :
      ~ CASE c = "C12_finite" -> t.fin = 1
